@@ -271,6 +271,46 @@ impl GrammarSpec {
         }
     }
 
+    /// The same grammar with every rule and terminal name in lower case (the style of
+    /// examples/clang): a symbol is then spelled like its own snake-case form, so generated
+    /// type and action identifiers coincide.
+    pub fn lowercased(&self) -> GrammarSpec {
+        let mut g = self.clone();
+        for r in g.rules.iter_mut() {
+            r.name = r.name.to_lowercase();
+        }
+        for t in g.terms.iter_mut() {
+            t.name = t.name.to_lowercase();
+        }
+        g
+    }
+
+    /// Names of the helper rules the documented expansion of every `?`, `*`, `+` use creates
+    /// (`X1` for `X+`; `X0` and `X1` for `X*`; `XOpt` for `X?`; X = name of the repeated symbol).
+    pub fn helper_names(&self) -> Vec<String> {
+        let mut v: Vec<String> = vec![];
+        for r in &self.rules {
+            for a in &r.alts {
+                for u in &a.syms {
+                    if let Some((op, _)) = &u.rep {
+                        let base = self.sym_name(u.sym).to_string();
+                        let names = match op {
+                            RepOp::Plus => vec![format!("{base}1")],
+                            RepOp::Star => vec![format!("{base}0"), format!("{base}1")],
+                            RepOp::Opt => vec![format!("{base}Opt")],
+                        };
+                        for n in names {
+                            if !v.contains(&n) {
+                                v.push(n);
+                            }
+                        }
+                    }
+                }
+            }
+        }
+        v
+    }
+
     pub fn render_alt(&self, a: &AltSpec) -> String {
         let mut parts: Vec<String> = vec![];
         for i in 0..=a.syms.len() {
